@@ -232,6 +232,102 @@ impl MeshSpec {
     }
 }
 
+/// Arbitrary triangle mesh in its local frame (f32 values exactly as parry holds them).
+#[derive(Clone, Debug)]
+pub struct TriData {
+    pub verts: Vec<[f32; 3]>,
+    pub idx: Vec<[u32; 3]>,
+    pub lo: [f32; 3],
+    pub hi: [f32; 3],
+}
+
+impl TriData {
+    pub fn from_trimesh(m: &parry3d::shape::TriMesh) -> TriData {
+        let verts: Vec<[f32; 3]> = m.vertices().iter().map(|p| [p.x, p.y, p.z]).collect();
+        let idx: Vec<[u32; 3]> = m.indices().to_vec();
+        let mut lo = [f32::INFINITY; 3];
+        let mut hi = [f32::NEG_INFINITY; 3];
+        for v in &verts {
+            for k in 0..3 {
+                lo[k] = lo[k].min(v[k]);
+                hi[k] = hi[k].max(v[k]);
+            }
+        }
+        TriData { verts, idx, lo, hi }
+    }
+    pub fn world_tris(&self, pose: &Iso) -> Vec<Tri> {
+        let w: Vec<V3> = self.verts.iter().map(|p| pose.apply(&[p[0] as f64, p[1] as f64, p[2] as f64])).collect();
+        self.idx.iter().map(|t| [w[t[0] as usize], w[t[1] as usize], w[t[2] as usize]]).collect()
+    }
+}
+
+fn tri_aabb(t: &Tri) -> (V3, V3) {
+    let mut lo = t[0];
+    let mut hi = t[0];
+    for v in &t[1..] {
+        for k in 0..3 {
+            lo[k] = lo[k].min(v[k]);
+            hi[k] = hi[k].max(v[k]);
+        }
+    }
+    (lo, hi)
+}
+
+fn aabb_gap2(a: &(V3, V3), b: &(V3, V3)) -> f64 {
+    let mut s = 0.0;
+    for k in 0..3 {
+        let g = (a.0[k] - b.1[k]).max(b.0[k] - a.1[k]).max(0.0);
+        s += g * g;
+    }
+    s
+}
+
+pub fn set_aabb(t: &[Tri]) -> (V3, V3) {
+    let mut lo = [f64::INFINITY; 3];
+    let mut hi = [f64::NEG_INFINITY; 3];
+    for tri in t {
+        for v in tri {
+            for k in 0..3 {
+                lo[k] = lo[k].min(v[k]);
+                hi[k] = hi[k].max(v[k]);
+            }
+        }
+    }
+    (lo, hi)
+}
+
+/// Exact surface distance between two placed meshes if it is <= cutoff, otherwise f64::INFINITY.
+/// Brute force over all triangle pairs; pairs whose bounding boxes are further apart than the cutoff (or than the
+/// best distance found so far) are skipped, which cannot change the result (box gap <= true distance).
+pub fn mesh_dist_upto(a: &[Tri], b: &[Tri], cutoff: f64) -> f64 {
+    let (ba, bb) = (set_aabb(a), set_aabb(b));
+    let c2 = cutoff * cutoff;
+    if aabb_gap2(&ba, &bb) > c2 {
+        return f64::INFINITY;
+    }
+    // only triangles near the other mesh's bounding box can matter
+    let near_a: Vec<(&Tri, (V3, V3))> = a.iter().map(|t| (t, tri_aabb(t))).filter(|(_, bx)| aabb_gap2(bx, &bb) <= c2).collect();
+    let near_b: Vec<(&Tri, (V3, V3))> = b.iter().map(|t| (t, tri_aabb(t))).filter(|(_, bx)| aabb_gap2(bx, &ba) <= c2).collect();
+    let mut best = f64::INFINITY;
+    let mut best2 = c2;
+    for (t1, b1) in &near_a {
+        for (t2, b2) in &near_b {
+            if aabb_gap2(b1, b2) > best2 {
+                continue;
+            }
+            let d = tri_tri_dist(t1, t2);
+            if d <= cutoff && d < best {
+                best = d;
+                best2 = d * d;
+                if d == 0.0 {
+                    return 0.0;
+                }
+            }
+        }
+    }
+    best
+}
+
 /// Brute-force surface distance between two placed meshes.
 pub fn mesh_dist(a: &[Tri], b: &[Tri]) -> f64 {
     let mut d = f64::INFINITY;
